@@ -26,7 +26,10 @@ from common import err_class, time_limit
 
 warnings.filterwarnings("ignore")
 
-KINDS = ["td", "lazy", "sub", "params", "tc", "nts"]
+KINDS = ["td", "lazy", "sub", "params", "tc", "nts", "shared", "lazymix"]
+# "shared":  the subject is an UNLOCKED tensordict that holds, under "s", a node it shares with a LOCKED root; the snapshot is the
+#            locked root's tree: whatever is called on the unlocked holder (nested keys included), the locked tree must stay as it was
+# "lazymix": the subject is a lazy stack (not locked: one member is unlocked) over an unlocked and a LOCKED member; snapshot = the locked member
 
 _TC = None
 
@@ -91,6 +94,20 @@ def make(kind: str, lock: bool):
         if lock:
             tc.lock_()
         return tc, tc, keep
+    if kind == "shared":
+        shared = _nested()
+        locked_root = TensorDict({"s": shared, "x": torch.zeros(3)}, [3])
+        other = TensorDict({"s": shared, "y": torch.zeros(3), "a": torch.zeros(3)}, [3])
+        if lock:
+            locked_root.lock_()
+        keep.append(locked_root)
+        return other, locked_root, keep
+    if kind == "lazymix":
+        m_free, m_locked = _nested(), _nested()
+        if lock:
+            m_locked.lock_()
+        L = LazyStackedTensorDict(m_free, m_locked, stack_dim=0)
+        return L, m_locked, keep
     if kind == "nts":
         s = NonTensorStack(NonTensorData("p"), NonTensorData("q"), stack_dim=0)
         if lock:
@@ -138,7 +155,16 @@ def snapshot(root, with_lock=True):
         if "_tensordict" in d:  # tensorclass / NonTensorData
             # non-tensor payloads are *values* (they have no in-place write): only the field names belong to the structure
             nt = tuple(sorted(d.get("_non_tensordict", {}).keys()))
-            return ("tc", lk, id(d["_tensordict"]), walk(d["_tensordict"], depth + 1), nt)
+            # every declared field must stay readable (a refused call may not make a field disappear)
+            fields = tuple(sorted(getattr(type(n), "__expected_keys__", ()) or ()))
+            readable = []
+            for f in fields:
+                try:
+                    getattr(n, f)
+                    readable.append((f, True))
+                except Exception:  # noqa
+                    readable.append((f, False))
+            return ("tc", lk, id(d["_tensordict"]), walk(d["_tensordict"], depth + 1), nt + tuple(readable))
         return ("other", type(n).__name__)
 
     return walk(root)
@@ -283,8 +309,9 @@ def hand_calls(kind: str, subject):
     bs = tuple(subject.batch_size)
     one = lambda: torch.ones(*bs) if bs else torch.ones(())
     from tensordict import TensorDict
-    existing = {"td": "a", "lazy": "a", "sub": "a", "params": "a", "tc": "a", "nts": "data"}[kind]
-    nested_existing = {"td": ("b", "c"), "lazy": ("b", "c"), "sub": ("b", "c"), "params": ("b", "c"), "tc": ("n", "a"), "nts": None}[kind]
+    existing = {"td": "a", "lazy": "a", "sub": "a", "params": "a", "tc": "a", "nts": "data", "shared": "a", "lazymix": "a"}[kind]
+    nested_existing = {"td": ("b", "c"), "lazy": ("b", "c"), "sub": ("b", "c"), "params": ("b", "c"), "tc": ("n", "a"), "nts": None,
+                       "shared": ("s", "a"), "lazymix": ("b", "c")}[kind]
     calls = [
         ("set", ("zz", one()), {}), ("set", (existing, one()), {}), ("set", (("zn", "zz"), one()), {}),
         ("__setitem__", ("zz", one()), {}), ("__setitem__", (existing, one()), {}),
@@ -324,8 +351,26 @@ def hand_calls(kind: str, subject):
                   ("del_", (nested_existing,), {}), ("exclude", (nested_existing,), {"inplace": True}),
                   ("pop", (nested_existing,), {}),
                   ("rename_key_", (nested_existing, nested_existing[:-1] + ("zz",)), {})]
+    if kind == "shared":
+        # every route from the unlocked holder into the node it shares with the locked root
+        two = lambda: torch.ones(*bs, 2)
+        calls += [("set", (("s", "zz"), one()), {}), ("set", (("s", "a"), one()), {}), ("__setitem__", (("s", "zz"), one()), {}),
+                  ("setdefault", (("s", "zz"), one()), {}), ("set_non_tensor", (("s", "zz"), "v"), {}), ("create_nested", (("s", "zz"),), {}),
+                  ("del_", (("s", "a"),), {}), ("__delitem__", (("s", "a"),), {}), ("pop", (("s", "a"),), {}),
+                  ("del_", (("s", "b", "c"),), {}), ("pop", (("s", "b", "d", "e"),), {}),
+                  ("rename_key_", (("s", "a"), ("s", "zz")), {}), ("rename_key_", (("s", "b", "c"), ("s", "b", "zz")), {}),
+                  ("exclude", (("s", "a"),), {"inplace": True}), ("exclude", (("s", "b", "c"),), {"inplace": True}),
+                  ("select", (("s", "a"),), {"inplace": True}), ("select", ("y", ("s", "b", "d")), {"inplace": True}),
+                  ("update", ({"s": {"zz": one()}},), {}), ("update", ({("s", "zz"): one()},), {}), ("update", ({"s": {"a": one()}},), {}),
+                  ("update", ({"s": {"b": {"zz": two()}}},), {}), ("split_keys", ([("s", "a")],), {"inplace": True}),
+                  ("set_", (("s", "a"), one()), {"__must_ok__": True}), ("update_", ({"s": {"a": one()}},), {"__must_ok__": True}),
+                  ("set", (("s", "a"), one()), {"inplace": True, "__must_ok__": True})]
     if kind in ("lazy", "nts"):
         calls += [("append", (None,), {}), ("insert", (0, None), {})]
+    if kind == "lazy":
+        # a source stack with fewer members: `update(..., update_batch_size=True)` re-initialises the destination
+        calls += [("update", ("<lazy_fewer>",), {"update_batch_size": True}),
+                  ("update", ("<lazy_fewer>",), {"inplace": True, "update_batch_size": True})]
     if kind == "tc":
         calls += [("__setattr__", ("a", one()), {}), ("__setattr__", ("zz", one()), {}), ("__setattr__", ("s", "y"), {}),
                   # the field that currently holds None: every way of giving it a value is a structural change
@@ -364,6 +409,9 @@ def invoke(subject, name, args, kwargs, kind, limit=3.0):
     for i, x in enumerate(a):
         if isinstance(x, str) and x == "<state_dict>":
             a[i] = make(kind, False)[0].state_dict()
+        if isinstance(x, str) and x == "<lazy_fewer>":
+            from tensordict import LazyStackedTensorDict
+            a[i] = LazyStackedTensorDict(_nested(), stack_dim=0)
         if x is None and name in ("copy_", "append", "insert"):
             a[i] = _like(subject, kind) if name == "copy_" else (make(kind, False)[0].tensordicts[0] if hasattr(subject, "tensordicts") else _like(subject, kind))
     try:
